@@ -75,6 +75,7 @@ func TestC03Aliasing(t *testing.T) {
 		t.Run(im.name, func(t *testing.T) {
 			vlib.Check(t, vlib.N(40, 150), func(t *rapid.T) { historyCase(t, im) })
 			vlib.Check(t, vlib.N(40, 150), func(t *rapid.T) { overlapCase(t, im) })
+			vlib.Check(t, vlib.N(40, 150), func(t *rapid.T) { retainCase(t, im) })
 		})
 	}
 }
@@ -297,6 +298,151 @@ func overlapCase(t *rapid.T, im impl) {
 	vlib.NonTrivial(sub, "overlap-checked", seed, m, []byte(kind), []byte{byte(off), byte(off >> 8)})
 }
 
+// retainCase: after EVERY call that takes a []byte input the caller's buffer is
+// overwritten (zeros / 0xFF / the corresponding bytes of another key); the
+// objects must keep behaving as the reference says for the ORIGINAL bytes
+// (no key object may keep a reference into a caller's buffer).
+func retainCase(t *rapid.T, im impl) {
+	p := im.ref
+	sub := "retain/" + im.name
+	seedA := vlib.EdgeBytes(t, 64, "seedA")
+	seedB := vlib.EdgeBytes(t, 64, "seedB")
+	for i := 0; i < 64; i += 31 { // make d and z differ between the keys
+		if seedA[i] == seedB[i] {
+			seedB[i] ^= 0x5a
+		}
+	}
+	m := vlib.EdgeBytes(t, 32, "m")
+	m2 := vlib.EdgeBytes(t, 32, "m2")
+	ekA, dkA := p.KeyGen(seedA[:32], seedA[32:])
+	ekB, dkB := p.KeyGen(seedB[:32], seedB[32:])
+	K, c := p.Encaps(ekA, m)
+	K2, c2 := p.Encaps(ekA, m2)
+	_, cB := p.Encaps(ekB, m)
+	cBad := append([]byte{}, c...)
+	i := rapid.IntRange(0, 8*len(c)-1).Draw(t, "badbit")
+	cBad[i/8] ^= 1 << uint(i%8)
+	KBad := p.Decaps(dkA, cBad)
+	vlib.Eval(sub)
+
+	source := rapid.SampledFrom([]string{"NewKeyFromSeed", "NewKeyFromSeed", "scheme.DeriveKeyPair", "scheme.DeriveKeyPair", "typed-Unpack", "scheme.UnmarshalBinary"}).Draw(t, "source")
+	clobber := rapid.SampledFrom([]string{"zeros", "ones", "other-key"}).Draw(t, "clobber")
+	vlib.Class(sub, "source="+source)
+	vlib.Class(sub, "clobber="+clobber)
+	wipe := func(buf, other []byte) {
+		for j := range buf {
+			switch clobber {
+			case "zeros":
+				buf[j] = 0
+			case "ones":
+				buf[j] = 0xff
+			default:
+				buf[j] = other[j]
+			}
+		}
+	}
+	desc := fmt.Sprintf("seedA %x seedB %x m %x: key from %s, then every input buffer overwritten with %s", seedA, seedB, m, source, clobber)
+	var pk pubKey
+	var sk privKey
+	var opErr error
+	ctOut := make([]byte, p.CtSize())
+	ssOut := make([]byte, 32)
+	ss1 := make([]byte, 32)
+	ss2 := make([]byte, 32)
+	if !catchRep(t, "C03/panic/"+im.name+"/retain", desc, func() {
+		switch source {
+		case "NewKeyFromSeed":
+			buf := append([]byte{}, seedA...)
+			pk, sk = im.newKey(buf)
+			wipe(buf, seedB)
+		case "scheme.DeriveKeyPair":
+			buf := append([]byte{}, seedA...)
+			a, b := im.sch.DeriveKeyPair(buf)
+			pk, sk = a.(pubKey), b.(privKey)
+			wipe(buf, seedB)
+		case "typed-Unpack":
+			eb, db := append([]byte{}, ekA...), append([]byte{}, dkA...)
+			if pk, opErr = im.unpackPK(eb); opErr != nil {
+				return
+			}
+			if sk, opErr = im.unpackSK(db); opErr != nil {
+				return
+			}
+			wipe(eb, ekB)
+			wipe(db, dkB)
+		case "scheme.UnmarshalBinary":
+			eb, db := append([]byte{}, ekA...), append([]byte{}, dkA...)
+			a, err := im.sch.UnmarshalBinaryPublicKey(eb)
+			if err != nil {
+				opErr = err
+				return
+			}
+			b, err := im.sch.UnmarshalBinaryPrivateKey(db)
+			if err != nil {
+				opErr = err
+				return
+			}
+			pk, sk = a.(pubKey), b.(privKey)
+			wipe(eb, ekB)
+			wipe(db, dkB)
+		}
+		// calls with input buffers that are overwritten afterwards
+		mbuf := append([]byte{}, m...)
+		pk.EncapsulateTo(ctOut, ssOut, mbuf)
+		wipe(mbuf, m2)
+		cbuf := append([]byte{}, c...)
+		sk.DecapsulateTo(ss1, cbuf)
+		wipe(cbuf, cB)
+		cbuf2 := append([]byte{}, cBad...)
+		sk.DecapsulateTo(ss2, cbuf2)
+		wipe(cbuf2, cB)
+	}) {
+		return
+	}
+	if opErr != nil {
+		vlib.Report(t, "C03/retain/"+im.name+"/wellformed-refused", fmt.Sprintf("%s: decoding a generated key failed: %v", desc, opErr))
+		return
+	}
+	if !bytes.Equal(ctOut, c) || !bytes.Equal(ssOut, K) || !bytes.Equal(ss1, K) || !bytes.Equal(ss2, KBad) {
+		vlib.Report(t, "C03/retain/"+im.name+"/"+source, fmt.Sprintf("%s: use right after the buffers the key was created from were overwritten differs from the reference for the original bytes: ct equal=%v K equal=%v Decaps(honest) equal=%v Decaps(invalid) equal=%v", desc, bytes.Equal(ctOut, c), bytes.Equal(ssOut, K), bytes.Equal(ss1, K), bytes.Equal(ss2, KBad)))
+		return
+	}
+	// later behaviour must be that of the ORIGINAL bytes
+	ek := make([]byte, p.EkSize())
+	dk := make([]byte, p.DkSize())
+	pub := make([]byte, p.EkSize())
+	pk.Pack(ek)
+	sk.Pack(dk)
+	sk.Public().(pubKey).Pack(pub)
+	pk.EncapsulateTo(ctOut, ssOut, m2)
+	sk.DecapsulateTo(ss1, c2)
+	sk.DecapsulateTo(ss2, cBad)
+	var bad []string
+	if !bytes.Equal(ek, ekA) {
+		bad = append(bad, fmt.Sprintf("pk.Pack (first differing byte %d)", firstDiff(ek, ekA)))
+	}
+	if !bytes.Equal(dk, dkA) {
+		bad = append(bad, fmt.Sprintf("sk.Pack (first differing byte %d of %d)", firstDiff(dk, dkA), len(dk)))
+	}
+	if !bytes.Equal(pub, ekA) {
+		bad = append(bad, "sk.Public().Pack")
+	}
+	if !bytes.Equal(ctOut, c2) || !bytes.Equal(ssOut, K2) {
+		bad = append(bad, "EncapsulateTo")
+	}
+	if !bytes.Equal(ss1, K2) {
+		bad = append(bad, "DecapsulateTo(honest c)")
+	}
+	if !bytes.Equal(ss2, KBad) {
+		bad = append(bad, fmt.Sprintf("DecapsulateTo(invalid c) = %x, reference %x", ss2, KBad))
+	}
+	if len(bad) > 0 {
+		vlib.Report(t, "C03/retain/"+im.name+"/"+source, fmt.Sprintf("%s: afterwards the objects no longer compute the reference function of the original bytes: %v", desc, bad))
+		return
+	}
+	vlib.NonTrivial(sub, "buffers-overwritten-then-compared", seedA, seedB, m, []byte(source), []byte(clobber))
+}
+
 // ---------------------------------------------------------------------------
 // concurrency: G goroutines run keygen / encaps / decaps of all six parameter
 // sets on different seeds at the same time; every output is compared with the
@@ -382,6 +528,58 @@ func TestC03Concurrent(t *testing.T) {
 	wg.Wait()
 	if firstFail != "" {
 		vlib.ReportDirect(t, failKey, firstFail, map[string]interface{}{"goroutines": G, "rounds": rounds})
+		return
+	}
+	// phase 2: FIRST use of a freshly parsed ek / dk by several goroutines released together
+	// (Encapsulate and Decapsulate do not modify a key as far as the caller can tell)
+	const G2 = 4
+	trials := vlib.N(8, 40)
+	for tr := 0; tr < trials && firstFail == ""; tr++ {
+		for i := range vecs {
+			v := &vecs[i]
+			p := v.im.ref
+			pk, e1 := v.im.unpackPK(v.ek)
+			sk, e2 := v.im.unpackSK(v.dk)
+			if e1 != nil || e2 != nil {
+				vlib.ReportDirect(t, "C03/parse/"+v.im.name+"/wellformed-refused", fmt.Sprintf("seed %x: %v %v", v.seed, e1, e2), nil)
+				return
+			}
+			start := make(chan struct{})
+			var wg2 sync.WaitGroup
+			var okAll [G2]bool
+			for g := 0; g < G2; g++ {
+				wg2.Add(1)
+				go func(g int) {
+					defer wg2.Done()
+					ct := make([]byte, p.CtSize())
+					ss := make([]byte, 32)
+					<-start
+					if g%2 == 0 {
+						pk.EncapsulateTo(ct, ss, v.m)
+						okAll[g] = bytes.Equal(ct, v.c) && bytes.Equal(ss, v.K)
+					} else {
+						sk.DecapsulateTo(ss, v.c)
+						okAll[g] = bytes.Equal(ss, v.K)
+					}
+				}(g)
+			}
+			close(start)
+			wg2.Wait()
+			vlib.Eval("concurrent-first-use/" + v.im.name)
+			for g := 0; g < G2; g++ {
+				if !okAll[g] && firstFail == "" {
+					step := map[int]string{0: "encaps", 1: "decaps"}[g%2]
+					failKey = "C03/concurrent/" + v.im.name + "/first-use-of-parsed-key/" + step
+					firstFail = fmt.Sprintf("seed %x m %x: %d goroutines make the first use of a freshly parsed ek/dk at the same time; goroutine %d (%s) does not get the reference bytes", v.seed, v.m, G2, g, step)
+				}
+			}
+			if firstFail != "" {
+				break
+			}
+		}
+	}
+	if firstFail != "" {
+		vlib.ReportDirect(t, failKey, firstFail, map[string]interface{}{"goroutines": G2, "trials": trials})
 		return
 	}
 	for _, v := range vecs {
